@@ -54,7 +54,7 @@ CLAIMS.update({
     "C01": (
         "Bounded solver verdict (totality: no panic, no failed unwrap, no overflow in the dev profile, no out-of-bounds access, loops bounded by "
         "the buffer) for ARBITRARY bytes, truncated anywhere, handed to: sfnt/TTC reader + provider + table_data (48 B), WOFF header/directory + "
-        "uncompressed table_data (88 B), WOFF2 header and directory entry, head/hhea/maxp, hmtx with any counts + metric lookups, name, cmap "
+        "uncompressed table_data (88 B), WOFF2 header and directory entry, head/hhea/maxp, hmtx with any counts + metric lookups, name, sbix (1 strike, 2 glyphs, every offset and glyph id), cmap "
         "header + any subtable at any offset + map_glyph (44 B: formats 4/6/10/12), kern format 2 with hostile offsets, fvar header; fvar/avar "
         "normalisation with hostile axis values; Coverage/ClassDef/Anchor with counts 0/1/2; CFF INDEX with hostile offsets; WOFF2 transformed "
         "glyf header with 65535 glyphs and any bbox size; WOFF2 transformed hmtx over an untransformed glyf.",
@@ -86,7 +86,7 @@ CLAIMS.update({
         "MatchType::match_glyph implements the OpenType lookup-flag rule (ignore bases/ligatures/marks, mark attachment type, mark filtering "
         "set) for every flag word over a GDEF with symbolic glyph classes, attachment classes and filtering set; MatchContext::matches "
         "(by glyph id, by class, by coverage; backtrack/input/lookahead 1-1-1, 2-0-1, 0-2-2) equals a reference matcher over non-skipped glyphs "
-        "for every run of 5 glyphs, position and flag; find_prev/next/nth/first and Ligature::matches likewise.",
+        "for every run of 5 glyphs, position and flag; find_prev/next/nth/first and Ligature::matches likewise; FeatureVariations: first matching record wins, a condition set is a conjunction, axis ranges are inclusive at both ends, unknown condition formats and missing axes never match (2 records, 2 conditions, 2 axes, every 2.14 value); GSUB subtables parsed from bytes with the coverage cache stubbed to an uncached read: SingleSubst formats 1 (delta modulo 65536) and 2, MultipleSubst, AlternateSubst and LigatureSubst return the sequence / alternates / ligature set of the glyph's coverage index with every glyph value symbolic.",
         "Outside (the larger part of the property): lookup ordering, per-type application loops, nested lookups, extension/reverse-chaining lookups, "
         "feature variations, ligature application - all behind LayoutCache (std HashMap) or Vec<RawGlyph> surgery. Seeded changes in those areas are missed.",
         "DESIGN.md section 6, C04", TECH_KANI),
@@ -94,16 +94,17 @@ CLAIMS.update({
         "Bounded solver verdict for value-record, anchor and kern decoding - NOT for GPOS lookup application or pen-position resolution: every "
         "valueFormat 0..0xFF decodes into the right Adjust members, consumes 2 bytes per set bit and ValueFormat::size equals that stride; "
         "VariationIndex device tables are followed at any offset inside the parent table; Anchor formats 1-3; kern format 0 (2 and 3 sorted "
-        "pairs) equals a linear scan for every glyph pair; kern format 2 class lookup returns the cell at leftClass+rightClass or None.",
-        "Outside: PairPos/MarkBase/MarkLig/Cursive parsing and application (LayoutCache), Adjust::apply, glyph_positions (14 GB out of memory). "
+        "pairs) equals a linear scan for every glyph pair; kern format 2 class lookup returns the cell at leftClass+rightClass or None; GPOS subtables parsed from bytes with the coverage/classdef cache stubbed to an uncached read: SinglePos formats 1/2, PairPos format 1 (pair sets searched by second glyph) and format 2 (2x2 class matrix cell of (class1(glyph1), class2(glyph2)) for covered first glyphs), CursivePos (exit anchor of the first, entry anchor of the second glyph, NULL offsets = no connection), MarkBasePos (base anchor of the mark's class + the mark's own anchor; NULL base anchor = none), for every glyph id, class value, anchor and value field and every query pair; through hook H8 the application kernels of gpos.rs: the candidate (base, mark) and (mark, mark) pairs offered over runs of 4 glyphs for every mark pattern, ligature component number and ligature flag (a mark is only offered the nearest preceding non-mark; mark-to-mark only inside one run of marks and only for the same component or a ligature), cursivepos (the FIRST glyph is attached to the second with the lookup's RIGHT_TO_LEFT bit, entry anchor of the second and exit anchor of the first), pairpos (value record 1 -> first glyph, 2 -> second; xAdvance into kerning, placements into a Distance) and markligpos (the component record is chosen by the MARK's ligature component number; out-of-range components attach nothing).",
+        "Outside: gpos::apply / gpos_apply_lookup themselves (the lookup cache: Rc'd enum, 20 min no answer), lookup-flag filtering of pairs (find_first/find_next are decided under C04), context positioning, variation deltas in Adjust::apply, cursive chains and pen arithmetic in glyph_positions (14 GB out of memory). Stubs: ReadScope::read_cache -> uncached read, RandomState::new -> constant (modules c05_pos, c05_apply). "
         "The kern format 2 oracle follows the crate's documented reading of the Microsoft text; Apple/HarfBuzz add the array offset into the left class values (DESIGN.md section 7).",
         "DESIGN.md section 6, C05", TECH_KANI),
     "C16": (
         "Bounded solver verdict for the contour walk only: for one contour of 1, 2, 3 and 4 points and two contours of 1+2 points, every on/off-curve "
         "pattern, the command list delivered to a recording OutlineSink through GlyfTable::visit equals an independent statement of the TrueType "
-        "rule (start point choice, implied midpoints incl. across the closing edge, one move_to and one close per contour); 3 points with every "
-        "i16 coordinate in the thorough tier.",
-        "Outside: composite glyphs (component transforms, offsets, nesting limit), the packed flag/coordinate decoder (SimpleGlyph::read_dep), > 4 points. "
+        "rule (start point choice, implied midpoints incl. across the closing edge, one move_to and one close per contour); 2 points with every "
+        "i16 coordinate in the thorough tier; the component transform: a stored uniform, x/y or 2x2 scale with EVERY 2.14 entry converts to the matrix that maps "
+        "(1,0) to (xscale, scale01) and (0,1) to (scale10, yscale), the convention of the glyf chapter (this found the transposed matrix, repaired).",
+        "Outside: the composite walk itself (offsets, nesting limit, point-number placement: five variants passed 8.8 GB after 19 min), the packed flag/coordinate decoder (SimpleGlyph::read_dep), > 4 points. "
         "Assumption: pathfinder_simd built with pf-no-simd (scalar Vector2F).",
         "DESIGN.md section 6, C16", TECH_KANI),
     "C09": (
@@ -150,12 +151,42 @@ CLAIMS.update({
         "DESIGN.md section 6, C11", TECH_KANI),
 })
 
+CLAIMS.update({
+    "C12": (
+        "Bounded solver verdict for the decoding and scalar kernels the instancer is assembled from (through hook H7) - NOT for variations::instance, the "
+        "accumulation of deltas over a glyph's points, phantom points, HVAR/MVAR or the item variation store evaluation: calculate_scalar for EVERY 2.14 "
+        "instance/start/peak/end of a well-formed region is 1 for an axis with zero peak, 0 outside [start, end], 1 at the peak and otherwise the "
+        "specification's quotient (instance-start)/(peak-start) or (end-instance)/(end-peak) (thorough: that value is the correctly rounded quotient, in exact "
+        "f64 arithmetic); do_infer (inferred delta of an un-referenced point, one coordinate) for EVERY i16 coordinate and delta follows the gvar rule: "
+        "coinciding neighbours -> common delta or 0, target outside the neighbours' span -> the delta of the nearer neighbour, inside -> linear interpolation; "
+        "DeltaSetIndexMap::entry for formats 0 and 1, every entryFormat byte, every index (clamped to the last entry), short buffers refused; packed point "
+        "numbers (one/two-byte count, byte/word runs, 'all points') and packed deltas (zero/int8/int16 runs, two runs) decode to the specified values "
+        "with exact consumption.",
+        "Thin claim. Outside: everything that iterates over a glyph or a font (variations::instance, glyf/variation.rs apart from do_infer, IUP contour walk, phantom points, "
+        "HVAR/MVAR wrappers), ItemVariationStore::adjustment and TupleVariationStore parsing (CBMC out of memory at 14 GB), cvar, shared point numbers, CFF2 blend (decided under C18).",
+        "DESIGN.md section 6, C12", TECH_KANI),
+    "C18": (
+        "Bounded solver verdict for the per-operator layer of the Type 2 machine - NOT for the charstring interpreter: through hook H6 the crate's own "
+        "CharStringParser (CharStringVisitor::visit dispatch + parse_* method, real ArgumentsStack and Builder) executes ONE path operator on an operand "
+        "stack of concrete length (1..13, the legal patterns of each of rmoveto/hmoveto/vmoveto, rlineto/hlineto/vlineto, rrcurveto, rcurveline, "
+        "rlinecurve, hhcurveto, vvcurveto, hvcurveto, vhcurveto, flex, hflex, hflex1, flex1, endchar) with EVERY operand and pen coordinate an integer in "
+        "-128..127 and every move-to state; the commands delivered to a recording sink, the pen and the open/closed-subpath state equal an "
+        "independent restatement of Adobe TN5177 in exact integer arithmetic (incl. alternation and the optional last operand of hv/vhcurveto, the "
+        "leading operand of hh/vvcurveto, flex1's choice of axis incl. ties, close-before-moveto, endchar closing); illegal operand counts and "
+        "drawing before any moveto are errors. Number encodings: every lead byte and operand byte of the 1-, 2-byte and 16.16 forms decodes per "
+        "TN5177 table 3; the CFF2->CFF operand writer emits the shortest form and round-trips for every i16 and every 16.16 value. Subroutine bias "
+        "107/1131/32768 and biased index conversion for every i32 operand and every INDEX size. CFF2 blend: for k = 0, 1, 2 regions and n = 1, 2 "
+        "values, result i = default i + sum_j scalar_j * delta_ij with non-applicable regions skipped, lower stack untouched.",
+        "Outside (most of the property): the interpreter loop - operator decoding inside a program, width prefix, stem counting and hint-mask length, callsubr/callgsubr "
+        "and the choice of the local INDEX per FD, nesting limit, seac, vsindex/blend argument handling - CBMC does not finish on it even for a fully concrete program. "
+        "Operands are small integers (fractional 16.16 operands and magnitudes above 127 are outside), operand stacks longer than 13, bounding box. One genuine defect found and repaired (blend with zero regions).",
+        "DESIGN.md section 6, C18", TECH_KANI),
+})
+
 NOT_APPLICABLE = {
     "C02": "Font::shape, gsub::apply, gpos::apply and every script engine sit behind LayoutCache (std HashMap) and Vec<RawGlyph> surgery (10-40 min, no answer); GlyphLayout::glyph_positions on a 2-glyph run with one symbolic attachment index ran out of 16 GB in every variant tried; what remains decidable (replace_missing_glyphs clamp; the matching primitives, decided under C04) is one of five anchored mechanisms and says nothing about totality of shaping (DESIGN.md section 9)",
     "C08": "cmap subset builder sits behind BTreeMap<Character,u16> (MappingsToKeep): pipeline 40 min and hooked kernel 25 min/10 GB gave no solver answer; a hook that bypasses the map would no longer execute the real code (DESIGN.md section 6, C08)",
-    "C12": "the only reachable evaluation kernel (ItemVariationStore::adjustment, f32 region scalars through iterator adaptors) gave no answer in 10-15 min even with a concrete region; instancer/IUP/CFF2 blends are behind BTreeMap/Vec pipelines (DESIGN.md section 6, C12)",
-    "C17": "every clause is a relation on the output of std's stable sort over symbolic keys; preprocess_text on 2 and 3 symbolic chars gave no answer in 15 min each; Engine B cannot take loops (DESIGN.md section 6, C17)",
-    "C18": "the Type 2 charstring interpreter is not constant-folded by CBMC even on a fully concrete 16-byte program (15 min / 9 GB, no answer): dispatcher tags live in heap objects (DESIGN.md section 6, C18)",
+    "C17": "every clause is a relation on the output of std's stable sort over symbolic keys; preprocess_text on 2 and 3 symbolic chars gave no answer in 15 min each, and sort_by_modified_combining_class called directly on 3 characters of the Thai block, and preprocess_text(THAI) on 3 such characters, gave none in 25 min each (symbolic execution of core::slice::sort never ends); Engine B cannot take loops (DESIGN.md section 6, C17)",
 }
 
 PENDING_REASON = "check not built yet in this round (planned, see DESIGN.md section 6); not claimed until its harnesses exist and pass on the unchanged tree"
